@@ -31,6 +31,7 @@ def normalize(
         Minimum values for each column.
 
     """
+    data = np.asarray(data, dtype=float)
     if d_min is None:
         d_min = np.min(data, axis=0)
     if d_max is None:
